@@ -1,8 +1,55 @@
+// REPLAY_SEARCH
 // The helper functions of WellConnections.cpp have internal linkage: the driver includes the CURRENT source file.
+// Without a counterexample to decode (bounded native search, used when the proof of the unit is undecided) a 3x3x3 model
+// with layer-dependent DZ / PERMX / PERMY / PERMZ / NTG goes through the real parser and Schedule: COMPDAT records that
+// span several layers (Z and X direction, CF / Kh / r0 defaulted, with skin) must give every connection the Peaceman
+// values of ITS OWN cell, computed independently here.
 #include "replay.hpp"
 #include <opm/input/eclipse/Schedule/Well/WellConnections.cpp>
+#include <opm/input/eclipse/Deck/Deck.hpp>
+#include <opm/input/eclipse/EclipseState/EclipseState.hpp>
+#include <opm/input/eclipse/Parser/Parser.hpp>
+#include <opm/input/eclipse/Python/Python.hpp>
+#include <opm/input/eclipse/Schedule/Schedule.hpp>
+#include <opm/input/eclipse/Schedule/Well/Well.hpp>
 #include <sstream>
 namespace {
+int nativeSearch(const Replay& r)
+{
+    const double dx = 100, dy = 80, dz[3] = {5, 10, 20}, kx[3] = {100, 200, 400}, ky[3] = {50, 300, 100}, kz[3] = {10, 20, 5}, ntg[3] = {1, 0.5, 0.8};
+    const std::string deck_text =
+        "RUNSPEC\nDIMENS\n 3 3 3 /\nOIL\nWATER\nGAS\nMETRIC\nSTART\n 1 'JAN' 2020 /\nWELLDIMS\n 2 10 2 2 /\nGRID\nDXV\n 3*100 /\nDYV\n 3*80 /\nDZV\n 5 10 20 /\nTOPS\n 9*2000 /\n"
+        "PERMX\n 9*100 9*200 9*400 /\nPERMY\n 9*50 9*300 9*100 /\nPERMZ\n 9*10 9*20 9*5 /\nPORO\n 27*0.3 /\nNTG\n 9*1 9*0.5 9*0.8 /\n"
+        "SCHEDULE\nWELSPECS\n 'W1' 'G' 1 1 1* 'OIL' /\n 'W2' 'G' 3 3 1* 'OIL' /\n/\nCOMPDAT\n 'W1' 1 1 1 3 'OPEN' 1* 1* 0.2 1* 1.5 1* 'Z' /\n 'W2' 3 3 1 3 'OPEN' 1* 1* 0.3 1* -0.5 1* 'X' /\n/\nTSTEP\n 1 /\n";
+    std::ostringstream w; w.precision(12);
+    try {
+        const auto deck = Opm::Parser{}.parseString(deck_text);
+        const Opm::EclipseState es(deck);
+        const Opm::Schedule sched(deck, es, std::make_shared<Opm::Python>());
+        const double mD = 9.869232667160128e-16;
+        for (const char* wn : {"W1", "W2"}) {
+            const bool zdir = std::string(wn) == "W1";
+            const double rw = (zdir ? 0.2 : 0.3) / 2, skin = zdir ? 1.5 : -0.5;
+            const auto& conns = sched.getWell(wn, 0).getConnections();
+            if (conns.size() != 3) return r.verdict(false, std::string(wn) + ": expected 3 connections");
+            for (const auto& c : conns) {
+                const int k = c.getK();
+                // direction Z: (K0,K1) = (kx,ky), (D0,D1,D2) = (dx,dy,dz*ntg); direction X: (K0,K1) = (ky,kz), (D0,D1,D2) = (dy, dz*ntg, dx)
+                const double K0 = (zdir ? kx[k] : ky[k]) * mD, K1 = (zdir ? ky[k] : kz[k]) * mD;
+                const double D0 = zdir ? dx : dy, D1 = zdir ? dy : dz[k] * ntg[k], D2 = zdir ? dz[k] * ntg[k] : dx;
+                const double r0 = 0.28 * std::sqrt(D0*D0*std::sqrt(K1/K0) + D1*D1*std::sqrt(K0/K1)) / (std::pow(K0/K1, 0.25) + std::pow(K1/K0, 0.25));
+                const double Kh = std::sqrt(K0 * K1) * D2;
+                const double CF = 2 * M_PI * Kh / (std::log(r0 / rw) + skin);
+                if (!Replay::close(c.r0(), r0, 1.0) || !Replay::close(c.Kh(), Kh, Kh) || !Replay::close(c.CF(), CF, CF)) {
+                    w << wn << " layer " << k + 1 << " (one COMPDAT record for layers 1-3): r0 = " << c.r0() << " (Peaceman for this cell: " << r0 << "), Kh = " << c.Kh() << " (" << Kh
+                      << "), CF = " << c.CF() << " (" << CF << ")";
+                    return r.verdict(false, w.str());
+                }
+            }
+        }
+    } catch (const std::exception& e) { return r.verdict(false, std::string("the test model does not load: ") + std::string(e.what()).substr(0, 160)); }
+    return r.verdict(true, "every connection of the multi-layer COMPDAT records has the Peaceman values of its own cell (bounded native search)");
+}
 std::array<double, 3> arr(const Replay& r, const std::string& p) {
     return { r.num(p + ".a[0l]", r.num(p + ".a[0]", 0)), r.num(p + ".a[1l]", r.num(p + ".a[1]", 0)), r.num(p + ".a[2l]", r.num(p + ".a[2]", 0)) };
 }
@@ -12,6 +59,7 @@ int main(int argc, char** argv)
 {
     Replay r(argc, argv);
     std::ostringstream w; w.precision(17);
+    if (r.is("bounded_native_search")) return nativeSearch(r);
     if (r.is("effectiveExtent/")) {
         const int d = r.integer("direction"); const double ntg = r.num("ntg");
         auto ext = r.has("extent.a[0l]") || r.has("extent.a[0]") ? arr(r, "extent") : arr(r, "verif_in_extent");
